@@ -1,5 +1,6 @@
 import PharmpyProofs.C06.Lemmas
 import PharmpyProofs.C06.EffLemmas
+import PharmpyProofs.C06.KindLemmas
 import PharmpyModel.Generated.EqHash
 import PharmpyModel.Generated.Effects
 /-
@@ -98,6 +99,26 @@ def knownInconsistent : List String :=
 theorem all_classes_hash_consistent :
     ∀ c ∈ inconsistentClasses eqHashTable, c ∈ knownInconsistent := by
   decide +kernel
+
+/-- The static check is sound: if it accepts kind `k` (with any fuel), every value typed by `k`
+    according to the table's field kinds satisfies the per-field law. -/
+theorem class_check_sound (T : Table) (n : Nat) (k : Kind) (v : Val)
+    (hok : kindOK T n k = true) (hk : HasKind T k v) : lawful T v = true :=
+  (kind_sound_core T v).1 n k hok hk
+
+/-- Hence for every class the static check accepts, and every well-typed instance `a` of it
+    (fields of any nesting depth and length), `a == b → hash a = hash b`. -/
+theorem consistent_class_eq_implies_hash_eq (T : Table) (c : String) (hc : classOK T c = true)
+    (a b : Val) (ha : HasKind T (.cls c) a) (h : eqV T a b = true) (H : Val → Nat) :
+    H (hashKey T a) = H (hashKey T b) :=
+  eq_implies_hash_eq T H a b (class_check_sound T _ _ a hc ha) h
+
+/-- Non-vacuity of the typed statement on the regenerated table: a well-typed `Parameter`. -/
+example : HasKind eqHashTable (.cls "Parameter")
+    (.obj "Parameter" (.cons (.atom "CL") (.cons (.atom "0.1") (.cons (.atom "0") (.cons (.atom "inf") (.cons (.atom "False") .nil)))))) :=
+  .obj _ cls_Parameter _ (by decide +kernel)
+    (.cons _ _ _ _ (.prim _) (.cons _ _ _ _ (.prim _) (.cons _ _ _ _ (.prim _) (.cons _ _ _ _ (.prim _)
+      (.cons _ _ _ _ (.prim _) .nil)))))
 
 /-- Which fields are directly responsible today (none outside the known ones). -/
 theorem direct_causes_known :
